@@ -256,4 +256,7 @@ M.append({"name": "N: u vectors with explicit loops instead of fold", "edits": [
 
 mut("C13 components stored in reverse order", [(SAM, "            vec[i] = gaussians.next().unwrap_or_else(|| unreachable!());", "            vec[D - 1 - i] = gaussians.next().unwrap_or_else(|| unreachable!());")], C13="C13-c")
 
+mut("C18 N: BTreeMap field added", [(PRE, "    pub cached_factor: f64,\n}", "    pub cached_factor: f64,\n    pub notes: std::collections::BTreeMap<String, f64>,\n}"), (PRE, "            cached_factor,\n            tropical_graph: tropical_graph.clone(),", "            cached_factor,\n            notes: Default::default(),\n            tropical_graph: tropical_graph.clone(),")], C18=None, C17=None)
+mut("C18 hand-written Serialize for the table entry", [(PRE, "#[derive(Debug, Clone, Copy, PartialEq, Serialize, Deserialize)]\npub struct TropicalSubgraphTableEntry {", "#[derive(Debug, Clone, Copy, PartialEq, Deserialize)]\npub struct TropicalSubgraphTableEntry {"), (PRE, "/// The list of data for all subgraphs, indexed using the TropicalSubGraphId", "impl Serialize for TropicalSubgraphTableEntry {\n    fn serialize<S: serde::Serializer>(&self, s: S) -> Result<S::Ok, S::Error> {\n        use serde::ser::SerializeStruct;\n        let mut st = s.serialize_struct(\"TropicalSubgraphTableEntry\", 4)?;\n        st.serialize_field(\"loop_number\", &self.loop_number)?;\n        st.serialize_field(\"mass_momentum_spanning\", &self.mass_momentum_spanning)?;\n        st.serialize_field(\"j_function\", &(self.j_function as f32))?;\n        st.serialize_field(\"generalized_dod\", &self.generalized_dod)?;\n        st.end()\n    }\n}\n\n/// The list of data for all subgraphs, indexed using the TropicalSubGraphId")], C18="C18-a")
+
 MUTATIONS = M
